@@ -75,13 +75,24 @@ type step struct {
 	finalize *types.MsgFinalizeTokenWithdrawal
 	delIndex uint64
 	propose  *types.MsgProposeOutput
+	fn       func(c sdk.Context) error
+	newRole  string // UpdateProposer / UpdateChallenger: the new holder
 }
 
 func (s step) ok() bool { return s.err == nil && !s.pan }
 
 // anyStep runs one arbitrary L1 message (kind chosen by the solver, all fields symbolic) atomically.
 func anyStep(ms MsgServer, ctx sdk.Context) step {
-	st := step{which: verifChoice("msg", nMsgs)}
+	st := newStep(ms)
+	st.run(ctx)
+	return *st
+}
+
+func (st *step) run(ctx sdk.Context) { st.err, st.pan = runMsg(ctx, st.fn) }
+
+// newStep builds the message (so that the harness can observe the state it names) without running it.
+func newStep(ms MsgServer) *step {
+	st := &step{which: verifChoice("msg", nMsgs)}
 	var fn func(c sdk.Context) error
 	switch st.which {
 	case mRecordBatch:
@@ -116,11 +127,11 @@ func anyStep(ms MsgServer, ctx sdk.Context) step {
 		fn = func(c sdk.Context) error { _, e := ms.FinalizeTokenWithdrawal(c, req); return e }
 	case mUpdateProposer:
 		req := &types.MsgUpdateProposer{Authority: verifSymStr("req.authority"), BridgeId: verifSymU64("req.bridge"), NewProposer: verifSymStr("req.newProposer")}
-		st.bridge, st.signer = req.BridgeId, req.Authority
+		st.bridge, st.signer, st.newRole = req.BridgeId, req.Authority, req.NewProposer
 		fn = func(c sdk.Context) error { _, e := ms.UpdateProposer(c, req); return e }
 	case mUpdateChallenger:
 		req := &types.MsgUpdateChallenger{Authority: verifSymStr("req.authority"), BridgeId: verifSymU64("req.bridge"), Challenger: verifSymStr("req.newChallenger")}
-		st.bridge, st.signer = req.BridgeId, req.Authority
+		st.bridge, st.signer, st.newRole = req.BridgeId, req.Authority, req.Challenger
 		fn = func(c sdk.Context) error { _, e := ms.UpdateChallenger(c, req); return e }
 	case mUpdateBatchInfo:
 		req := &types.MsgUpdateBatchInfo{Authority: verifSymStr("req.authority"), BridgeId: verifSymU64("req.bridge"), NewBatchInfo: symBatchInfo("req.newBatch")}
@@ -140,7 +151,7 @@ func anyStep(ms MsgServer, ctx sdk.Context) step {
 		st.signer = req.Authority
 		fn = func(c sdk.Context) error { _, e := ms.UpdateParams(c, req); return e }
 	}
-	st.err, st.pan = runMsg(ctx, fn)
+	st.fn = fn
 	return st
 }
 
